@@ -747,6 +747,7 @@ class Source:
         self.enums = {}        # name -> [(variant, [types])]
         self.consts = {}       # name -> (type, expr)
         self.fns = {}          # (impl_type, trait, name) -> dict(params, ret, body_pos, line)
+        self.assoc = {}        # (impl_type, assoc type name) -> type
         self.scan(0, len(self.toks) - 1, None, None, True)
 
     def scan(self, i, end, impl_ty, trait, top):
@@ -927,6 +928,12 @@ class Source:
                 pending_derive = set()
                 i = body_end
                 continue
+            if tk[0] == "id" and tk[1] == "type" and impl_ty is not None and t[i + 1][0] == "id" and t[i + 2][1] == "=":
+                p_ = Parser(t, i + 3)
+                try:
+                    self.assoc[(impl_ty, t[i + 1][1])] = p_.ty()
+                except Unsupported:
+                    pass
             if tk[0] == "id" and tk[1] in ("use", "type", "extern"):
                 while t[i][1] != ";" and t[i][1] != "{":
                     i += 1
@@ -1080,6 +1087,9 @@ class Ctx:
             return ("tup", [self.resolve_self(x, impl) for x in ty[1]])
         if ty[1] == "Self":
             return T(impl)
+        for sr in self.sources:
+            if (impl, ty[1]) in sr.assoc and not ty[2]:
+                return self.resolve_self(sr.assoc[(impl, ty[1])], impl)
         return ("ty", ty[1], [self.resolve_self(x, impl) for x in ty[2]])
 
 
@@ -2691,10 +2701,12 @@ MODULES = {
     },
     "PartitionGen": {
         "files": ["character_sets.rs", "smt_strings.rs", "errors.rs"],
-        "types": ["CharSet", "CoverResult", "ClassId", "Error", "CharPartition"],
+        "types": ["CharSet", "CoverResult", "ClassId", "Error", "CharPartition", "ClassIdIterator", "PickIterator"],
         "consts": ["MAX_CHAR"],
         "functions": [("CharSet", None, f) for f in ("contains", "is_before")]
                      + [("CharPartition", None, f) for f in PARTITION_FNS]
+                     + [("CharPartition", None, "class_ids"), ("CharPartition", None, "picks"),
+                        ("ClassIdIterator", "Iterator", "next"), ("PickIterator", "Iterator", "next")]
                      + [(None, None, "merge_partitions")],
     },
 }
